@@ -50,6 +50,9 @@ def run(ctx):
       for lag in lags:
         cfg = dict(strategy=st, lag=lag, buckets=wm.buckets)
         r_ops, _ = cachesys.gen_workload(ctx.rng, nmetrics=2, nts=2, nstores=ctx.pick(3, 5), ndrains=0, nqueries=0)
+        if (si + limits.index(lim)) % 3 == 0:
+          # a bulk cache query (cached and never-cached series) right after the first store
+          r_ops.insert(1, ('bulkquery', ['m9', r_ops[0][1], 'm8']))
         # stop-placement sweeps: the writer runs a steps, then all stores, then the stop (and the
         # same with the stores first): every program point of the writer loop is a stop position
         stride = ctx.pick(2, 1)
